@@ -302,6 +302,21 @@ def streamOf (cont : List Entry) (n : List Char) : Res Bytes :=
   | some e => pure e.data
   | none => .err .notFound
 
+/-- the catalog pass of `Package::open`: the table definitions the three catalog tables hold -/
+def openTables (pt : Nat) (cont : List Entry) (summary : PropSet) (pool : Pool) : Res (List Table) := do
+  let long := pool.longRefs
+  let s0 : Pkg := ⟨pt, cont, summary, false, pool, [], false⟩
+  let tt := Catalog.tablesTable long
+  let tRows ← s0.loadRows tt
+  let tableNames ← openNames pool tRows []
+  let ct := Catalog.columnsTable long
+  let cRows ← s0.loadRows ct
+  let colSpecs ← openColsMap pool tableNames cRows []
+  let vRows ← s0.loadRows (Catalog.validationTable long)
+  let valSpecs ← openValMap pool vRows []
+  let userTables ← openBuild colSpecs valSpecs long tableNames []
+  pure (insertTable (insertTable userTables tt) ct)
+
 /-- the parsing work of `Package::open`: (package type, summary, pool, tables) -/
 def openCore (ptype : Option Nat) (cont : List Entry) : Res (Nat × PropSet × Pool × List Table) := do
   let pt ← Res.ofOption ptype .invalidData
@@ -314,18 +329,8 @@ def openCore (ptype : Option Nat) (cont : List Entry) : Res (Nat × PropSet × P
   let _ ← Pool.readEntries (r.length + 1) r []
   let dataBytes ← streamOf cont sData
   let pool ← Pool.read poolBytes dataBytes
-  let long := pool.longRefs
-  let s0 : Pkg := ⟨pt, cont, summary, false, pool, [], false⟩
-  let tt := Catalog.tablesTable long
-  let tRows ← s0.loadRows tt
-  let tableNames ← openNames pool tRows []
-  let ct := Catalog.columnsTable long
-  let cRows ← s0.loadRows ct
-  let colSpecs ← openColsMap pool tableNames cRows []
-  let vRows ← s0.loadRows (Catalog.validationTable long)
-  let valSpecs ← openValMap pool vRows []
-  let userTables ← openBuild colSpecs valSpecs long tableNames []
-  pure (pt, summary, pool, insertTable (insertTable userTables tt) ct)
+  let tables ← openTables pt cont summary pool
+  pure (pt, summary, pool, tables)
 
 /-- `Package::open` on a container whose root CLSID says `ptype` (`none` = unrecognised):
 the opened package holds the container as it is, nothing pending, no finisher -/
